@@ -175,8 +175,8 @@ namespace {
                 if (((ctx.program[(size_t) i].v[4] % nbatches) + nbatches) % nbatches != b) continue;
                 ex::execute(ex::thread_pool_scheduler{}, [i] { post(i); });
             }
-            if (b == nbatches - 1) sim_quiesce(4000000);
-            // pika::wait() must not return while requests are in flight
+            // pika::wait() must not return while requests are in flight; it is called while the
+            // batch is still being posted and completed (fault phase)
             pika::wait();
             sim_mpi_stats st;
             sim_mpi_get_stats(&st);
